@@ -1,73 +1,109 @@
 /-
 Observed times: as long as every queue entry became runnable in the current instant, every observation is made
-at the instant its awaited condition became true.  Also: polls never shrink the LocalSet queue of other kinds.
+at the instant its awaited condition became true.  Also: polls never shrink the LocalSet queue, keep the phase,
+and outside the LocalSet's own polls the `local_work` flag covers the LocalSet queue.
 -/
 import Desverif.Proofs.ExecQueue
 namespace Exec
 
-/-- the part of the state the timing invariant talks about -/
-def core (s : St) : Nat × List Entry × List Entry × List Entry × List LogEntry :=
-  (s.now, s.rq, s.lq, s.dq, s.log)
+/-- the part of the state the invariants talk about (not: tasks, conditions, `Core::tick`) -/
+def core (s : St) :
+    Nat × List Entry × List Entry × List Entry × List Entry × List LogEntry × List Timer × Phase × Bool :=
+  (s.now, s.rq, s.iq, s.lq, s.dq, s.log, s.timers, s.phase, s.lflag)
 
-/-- every runnable / deferred task became runnable in the current instant, and no observation so far was late -/
+/-- every runnable / deferred task became runnable in the current instant, no observation so far was late, every
+pending timer lies in the future -/
 def Inv (s : St) : Prop :=
-  (∀ e ∈ s.rq, e.ready = s.now) ∧ (∀ e ∈ s.lq, e.ready = s.now) ∧ (∀ e ∈ s.dq, e.ready = s.now) ∧
-  (∀ x ∈ s.log, x.time = x.ready)
+  (∀ e ∈ s.rq, e.ready = s.now) ∧ (∀ e ∈ s.iq, e.ready = s.now) ∧ (∀ e ∈ s.lq, e.ready = s.now) ∧
+  (∀ e ∈ s.dq, e.ready = s.now) ∧ (∀ x ∈ s.log, x.time = x.ready) ∧ (∀ tm ∈ s.timers, s.now < tm.deadline)
 
 /-- no observation was made later than the instant at which the awaited condition became true -/
 def OnTime (s : St) : Prop := ∀ x ∈ s.log, x.time = x.ready
 
-theorem inv_of_core (s s' : St) (h : core s' = core s) (hi : Inv s) : Inv s' := by
+/-- the `local_work` flag covers the LocalSet queue -/
+def FL (s : St) : Prop := s.lq = [] ∨ s.lflag = true
+
+theorem core_inj {s s' : St} (h : core s' = core s) :
+    s'.now = s.now ∧ s'.rq = s.rq ∧ s'.iq = s.iq ∧ s'.lq = s.lq ∧ s'.dq = s.dq ∧ s'.log = s.log ∧
+    s'.timers = s.timers ∧ s'.phase = s.phase ∧ s'.lflag = s.lflag := by
   unfold core at h
-  simp only [Prod.mk.injEq] at h
-  obtain ⟨h1, h2, h3, h4, h5⟩ := h
+  simpa only [Prod.mk.injEq] using h
+
+theorem inv_of_core (s s' : St) (h : core s' = core s) (hi : Inv s) : Inv s' := by
+  obtain ⟨h1, h2, h3, h4, h5, h6, h7, _, _⟩ := core_inj h
   unfold Inv
-  rw [h1, h2, h3, h4, h5]
+  rw [h1, h2, h3, h4, h5, h6, h7]
   exact hi
 
-theorem now_of_core (s s' : St) (h : core s' = core s) : s'.now = s.now := by
-  unfold core at h
+/-- `Inv` does not look at the phase or the flag -/
+theorem inv_of_icore (s s' : St)
+    (h : (s'.now, s'.rq, s'.iq, s'.lq, s'.dq, s'.log, s'.timers) = (s.now, s.rq, s.iq, s.lq, s.dq, s.log, s.timers))
+    (hi : Inv s) : Inv s' := by
   simp only [Prod.mk.injEq] at h
-  exact h.1
+  obtain ⟨h1, h2, h3, h4, h5, h6, h7⟩ := h
+  unfold Inv
+  rw [h1, h2, h3, h4, h5, h6, h7]
+  exact hi
 
-theorem lq_of_core (s s' : St) (h : core s' = core s) : s'.lq = s.lq := by
-  unfold core at h
-  simp only [Prod.mk.injEq] at h
-  exact h.2.2.1
+theorem now_of_core (s s' : St) (h : core s' = core s) : s'.now = s.now := (core_inj h).1
 
-/-- `now` is unchanged, the local queue does not shrink, and - provided `c` - `Inv` is kept -/
-def Keeps (c : Prop) (s s' : St) : Prop := (c → Inv s → Inv s') ∧ s'.now = s.now ∧ s.lq.length ≤ s'.lq.length
+/-- `now` and the phase are unchanged, the local queue does not shrink, while the LocalSet is not being polled the
+flag keeps covering its queue, and - provided `c` - `Inv` is kept -/
+def Keeps (c : Prop) (s s' : St) : Prop :=
+  (c → Inv s → Inv s') ∧ s'.now = s.now ∧ s.lq.length ≤ s'.lq.length ∧ s'.phase = s.phase ∧
+  ((s.phase = .rtloop ∨ s.phase = .flush) → FL s → FL s')
 
-theorem keeps_refl {c : Prop} (s : St) : Keeps c s s := ⟨fun _ h => h, rfl, Nat.le_refl _⟩
+theorem keeps_refl {c : Prop} (s : St) : Keeps c s s := ⟨fun _ h => h, rfl, Nat.le_refl _, rfl, fun _ h => h⟩
 
 theorem keeps_trans {c : Prop} {a b d : St} (h1 : Keeps c a b) (h2 : Keeps c b d) : Keeps c a d :=
-  ⟨fun hc h => h2.1 hc (h1.1 hc h), h2.2.1.trans h1.2.1, Nat.le_trans h1.2.2 h2.2.2⟩
+  ⟨fun hc h => h2.1 hc (h1.1 hc h), h2.2.1.trans h1.2.1, Nat.le_trans h1.2.2.1 h2.2.2.1,
+    h2.2.2.2.1.trans h1.2.2.2.1,
+    fun hp h => h2.2.2.2.2 (by rw [h1.2.2.2.1]; exact hp) (h1.2.2.2.2 hp h)⟩
 
 theorem keeps_mono {c c' : Prop} {a b : St} (hc : c → c') (h : Keeps c' a b) : Keeps c a b :=
-  ⟨fun x => h.1 (hc x), h.2.1, h.2.2⟩
+  ⟨fun x => h.1 (hc x), h.2⟩
 
-theorem keeps_of_core {c : Prop} (s s' : St) (h : core s' = core s) : Keeps c s s' :=
-  ⟨fun _ => inv_of_core s s' h, now_of_core s s' h, by rw [lq_of_core s s' h]; exact Nat.le_refl _⟩
+theorem keeps_of_core {c : Prop} (s s' : St) (h : core s' = core s) : Keeps c s s' := by
+  obtain ⟨h1, _, _, h4, _, _, _, h8, h9⟩ := core_inj h
+  refine ⟨fun _ => inv_of_core s s' h, h1, by rw [h4]; exact Nat.le_refl _, h8, fun _ hf => ?_⟩
+  unfold FL
+  rw [h4, h9]
+  exact hf
 
 theorem keeps_pushEntry (s : St) (e : Entry) : Keeps (e.ready = s.now) s (pushEntry s e) := by
   unfold pushEntry
   cases hk : e.kind
-  · refine ⟨?_, rfl, Nat.le_refl _⟩
-    rintro he ⟨h1, h2, h3, h4⟩
-    refine ⟨?_, h2, h3, h4⟩
-    intro x hx
-    simp only [List.mem_append, List.mem_singleton] at hx
-    rcases hx with hx | hx
-    · exact h1 x hx
-    · subst hx; exact he
-  · refine ⟨?_, rfl, by simp⟩
-    rintro he ⟨h1, h2, h3, h4⟩
-    refine ⟨h1, ?_, h3, h4⟩
-    intro x hx
-    simp only [List.mem_append, List.mem_singleton] at hx
-    rcases hx with hx | hx
-    · exact h2 x hx
-    · subst hx; exact he
+  · simp only
+    split
+    · refine ⟨?_, rfl, Nat.le_refl _, rfl, fun _ h => h⟩
+      rintro he ⟨h1, h2, h3, h4, h5, h6⟩
+      refine ⟨h1, ?_, h3, h4, h5, h6⟩
+      intro x hx
+      simp only [List.mem_append, List.mem_singleton] at hx
+      rcases hx with hx | hx
+      · exact h2 x hx
+      · subst hx; exact he
+    · refine ⟨?_, rfl, Nat.le_refl _, rfl, fun _ h => h⟩
+      rintro he ⟨h1, h2, h3, h4, h5, h6⟩
+      refine ⟨?_, h2, h3, h4, h5, h6⟩
+      intro x hx
+      simp only [List.mem_append, List.mem_singleton] at hx
+      rcases hx with hx | hx
+      · exact h1 x hx
+      · subst hx; exact he
+  · have hinv : ∀ (l : Bool), e.ready = s.now → Inv s → Inv { s with lq := s.lq ++ [e], lflag := l } := by
+      rintro l he ⟨h1, h2, h3, h4, h5, h6⟩
+      refine ⟨h1, h2, ?_, h4, h5, h6⟩
+      intro x hx
+      simp only [List.mem_append, List.mem_singleton] at hx
+      rcases hx with hx | hx
+      · exact h3 x hx
+      · subst hx; exact he
+    simp only
+    split
+    · exact ⟨hinv true, rfl, by simp, rfl, fun _ _ => Or.inr rfl⟩
+    · rename_i hp
+      exact ⟨hinv s.lflag, rfl, by simp, rfl, fun hp' _ => absurd hp' hp⟩
 
 theorem keeps_enqueue {c : Prop} (s : St) (k : Kind) (i : Nat) : Keeps c s (enqueue s k i) :=
   keeps_mono (c' := (⟨k, i, s.now, s.phase⟩ : Entry).ready = s.now) (fun _ => rfl)
@@ -75,25 +111,55 @@ theorem keeps_enqueue {c : Prop} (s : St) (k : Kind) (i : Nat) : Keeps c s (enqu
 
 theorem keeps_defer {c : Prop} (s : St) (k : Kind) (i : Nat) : Keeps c s (defer s k i) := by
   unfold defer
-  refine ⟨?_, rfl, Nat.le_refl _⟩
-  rintro _ ⟨h1, h2, h3, h4⟩
-  refine ⟨h1, h2, ?_, h4⟩
+  refine ⟨?_, rfl, Nat.le_refl _, rfl, fun _ h => h⟩
+  rintro _ ⟨h1, h2, h3, h4, h5, h6⟩
+  refine ⟨h1, h2, h3, ?_, h5, h6⟩
   intro x hx
   simp only [List.mem_append, List.mem_singleton] at hx
   rcases hx with hx | hx
-  · exact h3 x hx
+  · exact h4 x hx
   · subst hx; rfl
 
 theorem keeps_logAt (s : St) (i rdy : Nat) (org : Phase) : Keeps (rdy = s.now) s (logAt s i rdy org) := by
   unfold logAt
-  refine ⟨?_, rfl, Nat.le_refl _⟩
-  rintro h ⟨h1, h2, h3, h4⟩
-  refine ⟨h1, h2, h3, ?_⟩
+  refine ⟨?_, rfl, Nat.le_refl _, rfl, fun _ h => h⟩
+  rintro h ⟨h1, h2, h3, h4, h5, h6⟩
+  refine ⟨h1, h2, h3, h4, ?_, h6⟩
   intro x hx
   simp only [List.mem_cons] at hx
   rcases hx with hx | hx
   · subst hx; exact h.symm
-  · exact h4 x hx
+  · exact h5 x hx
+
+theorem mem_insertTimer (tm x : Timer) : ∀ l : List Timer, x ∈ insertTimer tm l ↔ x = tm ∨ x ∈ l := by
+  intro l
+  induction l with
+  | nil => simp [insertTimer]
+  | cons a l ih =>
+    simp only [insertTimer]
+    split
+    · simp only [List.mem_cons, ih]
+      constructor
+      · rintro (h | h | h)
+        · exact Or.inr (Or.inl h)
+        · exact Or.inl h
+        · exact Or.inr (Or.inr h)
+      · rintro (h | h | h)
+        · exact Or.inr (Or.inl h)
+        · exact Or.inl h
+        · exact Or.inr (Or.inr h)
+    · simp only [List.mem_cons]
+
+/-- registering a timer whose deadline lies in the future -/
+theorem keeps_addTimer {c : Prop} (s : St) (tm : Timer) (h : s.now < tm.deadline) : Keeps c s (addTimer s tm) := by
+  unfold addTimer
+  refine ⟨?_, rfl, Nat.le_refl _, rfl, fun _ h => h⟩
+  rintro _ ⟨h1, h2, h3, h4, h5, h6⟩
+  refine ⟨h1, h2, h3, h4, h5, ?_⟩
+  intro x hx
+  rcases (mem_insertTimer tm x s.timers).1 hx with hx | hx
+  · subst hx; exact h
+  · exact h6 x hx
 
 theorem core_setProg (s : St) (i : Nat) (p : List Instr) : core (setProg s i p) = core s := by
   unfold setProg; split <;> rfl
@@ -180,6 +246,31 @@ theorem keeps_runProg (k : Kind) (i : Nat) :
               (keeps_mono (fun hr => by rw [hsp.2.1]; exact hr) (keeps_logAt (setProg s i r) i rdy org))
             exact keeps_trans h1 (keeps_mono (fun _ => h1.2.1.symm) (ih _ s.now s.phase _))
           · exact keeps_of_core s _ rfl
+    | sleep d =>
+      simp only [runProg]
+      split
+      · rename_i hlt
+        exact keeps_trans (keeps_of_core s _ (core_setProg s i _)) (keeps_addTimer _ _ (by
+          rw [now_of_core _ _ (core_setProg s i _)]; exact hlt))
+      · have h1 := keeps_trans hsp
+          (keeps_mono (fun hr => by rw [hsp.2.1]; exact hr) (keeps_logAt (setProg s i r) i rdy org))
+        exact keeps_trans h1 (keeps_mono (fun _ => h1.2.1.symm) (ih _ s.now s.phase _))
+    | sleepUntil t =>
+      simp only [runProg]
+      split
+      · rename_i hlt
+        exact keeps_trans (keeps_of_core s _ (core_setProg s i _)) (keeps_addTimer _ _ (by
+          rw [now_of_core _ _ (core_setProg s i _)]; exact hlt))
+      · have h1 := keeps_trans hsp
+          (keeps_mono (fun hr => by rw [hsp.2.1]; exact hr) (keeps_logAt (setProg s i r) i rdy org))
+        exact keeps_trans h1 (keeps_mono (fun _ => h1.2.1.symm) (ih _ s.now s.phase _))
+    | sleeping t =>
+      simp only [runProg]
+      split
+      · exact keeps_refl s
+      · have h1 := keeps_trans hsp
+          (keeps_mono (fun hr => by rw [hsp.2.1]; exact hr) (keeps_logAt (setProg s i r) i rdy org))
+        exact keeps_trans h1 (keeps_mono (fun _ => h1.2.1.symm) (ih _ s.now s.phase _))
 
 theorem keeps_pollTask (P : Params) (e : Entry) (s : St) :
     Keeps (e.ready = s.now) s (pollTask P e s) := by
@@ -196,73 +287,92 @@ theorem keeps_pollTask (P : Params) (e : Entry) (s : St) :
           (keeps_mono (fun he => by rw [h1.2.1]; exact he) (keeps_logAt _ e.idx e.ready e.origin))
         exact keeps_trans h2 (keeps_mono (fun _ => h2.2.1.symm) (keeps_runProg _ _ _ _ _ _ _))
 
-/-- polling the runtime queue never shrinks the local queue, and keeps `now` -/
+/-- what is left after a `pop` satisfies `Inv`, and the popped entry became runnable now -/
+theorem inv_pop (P : Params) (q : Kind) (s s' : St) (e : Entry) (h : pop P q s = some (e, s')) (hi : Inv s) :
+    Inv s' ∧ e.ready = s'.now := by
+  obtain ⟨h1, h2, h3, h4, h5, h6⟩ := hi
+  rcases pop_some P q s s' e h with ⟨r, hq, rfl⟩ | ⟨r, hq, rfl⟩ | ⟨r, hq, rfl⟩
+  · exact ⟨⟨fun x hx => h1 x (by rw [hq]; exact List.mem_cons_of_mem _ hx), h2, h3, h4, h5, h6⟩,
+      h1 e (by rw [hq]; exact List.mem_cons_self)⟩
+  · exact ⟨⟨h1, fun x hx => h2 x (by rw [hq]; exact List.mem_cons_of_mem _ hx), h3, h4, h5, h6⟩,
+      h2 e (by rw [hq]; exact List.mem_cons_self)⟩
+  · exact ⟨⟨h1, h2, fun x hx => h3 x (by rw [hq]; exact List.mem_cons_of_mem _ hx), h4, h5, h6⟩,
+      h3 e (by rw [hq]; exact List.mem_cons_self)⟩
+
+/-- one iteration of a queue loop: `Inv`, `now`, the phase are kept -/
+theorem step_inv (P : Params) (q : Kind) (s : St) :
+    (Inv s → Inv (step P q s)) ∧ (step P q s).now = s.now ∧ (step P q s).phase = s.phase := by
+  unfold step
+  cases hq : pop P q s with
+  | none => exact ⟨id, rfl, rfl⟩
+  | some x =>
+    obtain ⟨e, s'⟩ := x
+    simp only
+    have hk := keeps_pollTask P e s'
+    have hn : s'.now = s.now ∧ s'.phase = s.phase := by
+      rcases pop_some P q s s' e hq with ⟨r, _, rfl⟩ | ⟨r, _, rfl⟩ | ⟨r, _, rfl⟩ <;> exact ⟨rfl, rfl⟩
+    refine ⟨fun hi => ?_, hk.2.1.trans hn.1, hk.2.2.2.1.trans hn.2⟩
+    have := inv_pop P q s s' e hq hi
+    exact hk.1 this.2 this.1
+
+/-- one iteration of the runtime loop never shrinks the local queue and keeps the flag covering it -/
 theorem step_rt_lq (P : Params) (s : St) :
-    (Inv s → Inv (step P .rt s)) ∧ (step P .rt s).now = s.now ∧ s.lq.length ≤ (step P .rt s).lq.length := by
+    s.lq.length ≤ (step P .rt s).lq.length ∧ (s.phase = .rtloop → FL s → FL (step P .rt s)) := by
   unfold step
-  cases hq : queue .rt s with
-  | nil => exact ⟨id, rfl, Nat.le_refl _⟩
-  | cons e r =>
+  cases hq : pop P .rt s with
+  | none => exact ⟨Nat.le_refl _, fun _ h => h⟩
+  | some x =>
+    obtain ⟨e, s'⟩ := x
     simp only
-    have hq' : s.rq = e :: r := hq
-    have hk := keeps_pollTask P e (setQueue .rt s r)
-    refine ⟨fun hi => ?_, hk.2.1, hk.2.2⟩
-    have he : e.ready = s.now := hi.1 e (by rw [hq']; exact List.mem_cons_self)
-    have hi' : Inv (setQueue .rt s r) := by
-      obtain ⟨h1, h2, h3, h4⟩ := hi
-      refine ⟨?_, h2, h3, h4⟩
-      intro x hx
-      exact h1 x (by rw [hq']; exact List.mem_cons_of_mem _ hx)
-    exact hk.1 he hi'
+    have hk := keeps_pollTask P e s'
+    have hn : s'.lq = s.lq ∧ s'.phase = s.phase ∧ s'.lflag = s.lflag := by
+      rcases pop_some P .rt s s' e hq with ⟨r, _, rfl⟩ | ⟨r, _, rfl⟩ | ⟨r, hl, rfl⟩
+      · exact ⟨rfl, rfl, rfl⟩
+      · exact ⟨rfl, rfl, rfl⟩
+      · -- the runtime loop does not pop the local queue
+        exfalso
+        unfold pop at hq
+        simp only at hq
+        split at hq <;> split at hq <;> simp at hq <;>
+          (have := congrArg St.lq hq.2; simp at this; rw [hl] at this; simp at this)
+    refine ⟨by rw [← hn.1]; exact hk.2.2.1, fun hp hf => ?_⟩
+    refine hk.2.2.2.2 (Or.inl (by rw [hn.2.1]; exact hp)) ?_
+    unfold FL at hf ⊢
+    rw [hn.1, hn.2.2]
+    exact hf
 
-theorem step_loc_inv (P : Params) (s : St) (hi : Inv s) :
-    Inv (step P .loc s) ∧ (step P .loc s).now = s.now := by
-  unfold step
-  cases hq : queue .loc s with
-  | nil => exact ⟨hi, rfl⟩
-  | cons e r =>
-    simp only
-    have hq' : s.lq = e :: r := hq
-    have he : e.ready = s.now := hi.2.1 e (by rw [hq']; exact List.mem_cons_self)
-    have hi' : Inv (setQueue .loc s r) := by
-      obtain ⟨h1, h2, h3, h4⟩ := hi
-      refine ⟨h1, ?_, h3, h4⟩
-      intro x hx
-      exact h2 x (by rw [hq']; exact List.mem_cons_of_mem _ hx)
-    have hk := keeps_pollTask P e (setQueue .loc s r)
-    exact ⟨hk.1 he hi', hk.2.1⟩
-
-theorem runQ_rt_inv (P : Params) :
+theorem runQ_inv (P : Params) (q : Kind) :
     ∀ (b : Nat) (s : St),
-      (Inv s → Inv (runQ P .rt b s)) ∧ (runQ P .rt b s).now = s.now ∧
-        s.lq.length ≤ (runQ P .rt b s).lq.length := by
+      (Inv s → Inv (runQ P q b s)) ∧ (runQ P q b s).now = s.now ∧ (runQ P q b s).phase = s.phase := by
   intro b
   induction b with
-  | zero => intro s; exact ⟨id, rfl, Nat.le_refl _⟩
+  | zero => intro s; exact ⟨id, rfl, rfl⟩
   | succ b ih =>
     intro s
-    cases hq : queue .rt s with
-    | nil => rw [runQ_of_empty P .rt _ s hq]; exact ⟨id, rfl, Nat.le_refl _⟩
-    | cons e r =>
-      rw [runQ_cons P .rt b s e r hq]
-      have h1 := step_rt_lq P s
-      have h2 := ih (step P .rt s)
-      exact ⟨fun hi => h2.1 (h1.1 hi), h2.2.1.trans h1.2.1, Nat.le_trans h1.2.2 h2.2.2⟩
+    cases hq : pop P q s with
+    | none => rw [runQ_of_empty P q _ s hq]; exact ⟨id, rfl, rfl⟩
+    | some x =>
+      rw [runQ_cons P q b s x hq]
+      have h1 := step_inv P q s
+      have h2 := ih (step P q s)
+      exact ⟨fun hi => h2.1 (h1.1 hi), h2.2.1.trans h1.2.1, h2.2.2.trans h1.2.2⟩
 
-theorem runQ_loc_inv (P : Params) :
-    ∀ (b : Nat) (s : St), Inv s → Inv (runQ P .loc b s) ∧ (runQ P .loc b s).now = s.now := by
+theorem runQ_rt_lq (P : Params) :
+    ∀ (b : Nat) (s : St),
+      s.lq.length ≤ (runQ P .rt b s).lq.length ∧ (s.phase = .rtloop → FL s → FL (runQ P .rt b s)) := by
   intro b
   induction b with
-  | zero => intro s hi; exact ⟨hi, rfl⟩
+  | zero => intro s; exact ⟨Nat.le_refl _, fun _ h => h⟩
   | succ b ih =>
-    intro s hi
-    cases hq : queue .loc s with
-    | nil => rw [runQ_of_empty P .loc _ s hq]; exact ⟨hi, rfl⟩
-    | cons e r =>
-      rw [runQ_cons P .loc b s e r hq]
-      have h1 := step_loc_inv P s hi
-      have h2 := ih _ h1.1
-      exact ⟨h2.1, h2.2.trans h1.2⟩
+    intro s
+    cases hq : pop P .rt s with
+    | none => rw [runQ_of_empty P .rt _ s hq]; exact ⟨Nat.le_refl _, fun _ h => h⟩
+    | some x =>
+      rw [runQ_cons P .rt b s x hq]
+      have h1 := step_rt_lq P s
+      have h2 := ih (step P .rt s)
+      have hp := (step_inv P .rt s).2.2
+      exact ⟨Nat.le_trans h1.1 h2.1, fun hph hf => h2.2 (by rw [hp]; exact hph) (h1.2 hph hf)⟩
 
 theorem runH_inv : ∀ (h : List Instr) (s : St), Inv s → Inv (runH h s) ∧ (runH h s).now = s.now := by
   intro h
@@ -285,45 +395,107 @@ theorem runH_inv : ∀ (h : List Instr) (s : St), Inv s → Inv (runH h s) ∧ (
     | yield => simp only [runH]; exact ih s hi
     | resume => simp only [runH]; exact ih s hi
     | join _ => simp only [runH]; exact ih s hi
+    | sleep _ => simp only [runH]; exact ih s hi
+    | sleepUntil _ => simp only [runH]; exact ih s hi
+    | sleeping _ => simp only [runH]; exact ih s hi
 
 theorem foldl_push_inv (l : List Entry) :
-    ∀ s : St, Inv s → (∀ e ∈ l, e.ready = s.now) →
-      Inv (l.foldl (fun s e => pushEntry s { e with origin := .flush }) s) := by
+    ∀ s : St, s.phase = .flush → Inv s → FL s → (∀ e ∈ l, e.ready = s.now) →
+      Inv (l.foldl (fun s e => pushEntry s { e with origin := .flush }) s) ∧
+      FL (l.foldl (fun s e => pushEntry s { e with origin := .flush }) s) := by
   induction l with
-  | nil => intro s hi _; exact hi
+  | nil => intro s _ hi hf _; exact ⟨hi, hf⟩
   | cons a l ih =>
-    intro s hi hl
+    intro s hp hi hf hl
     simp only [List.foldl_cons]
     have hk := keeps_pushEntry s { a with origin := .flush }
-    refine ih _ (hk.1 (hl a List.mem_cons_self) hi) ?_
+    refine ih _ (hk.2.2.2.1.trans hp) (hk.1 (hl a List.mem_cons_self) hi) (hk.2.2.2.2 (Or.inr hp) hf) ?_
     intro e he
     rw [hk.2.1]
     exact hl e (List.mem_cons_of_mem _ he)
 
-theorem flush_inv (s : St) (hi : Inv s) : Inv (flush s) := by
+theorem flush_inv (s : St) (hi : Inv s) (hf : FL s) : Inv (flush s) ∧ FL (flush s) := by
   unfold flush
-  obtain ⟨h1, h2, h3, h4⟩ := hi
-  refine foldl_push_inv _ _ ⟨h1, h2, ?_, h4⟩ ?_
+  obtain ⟨h1, h2, h3, h4, h5, h6⟩ := hi
+  refine foldl_push_inv _ _ rfl ⟨h1, h2, h3, ?_, h5, h6⟩ hf ?_
   · intro e he; simp at he
   · intro e he
-    exact h3 e (by simpa using he)
+    exact h4 e (by simpa using he)
 
-/-- one pass keeps the invariant: whatever it polls became runnable in this very instant -/
-theorem pass_inv (P : Params) (s : St) (hi : Inv s) : Inv (pass P s) := by
-  unfold pass afterRt rtStart afterTick tickStart
-  have h1' : Inv { s with phase := .tick } := inv_of_core _ _ rfl hi
-  have h2 := (runQ_loc_inv P P.L _ h1').1
-  have h2' : Inv { runQ P .loc P.L { s with phase := .tick } with phase := .rtloop } := inv_of_core _ _ rfl h2
-  have h3 := (runQ_rt_inv P P.E _).1 h2'
-  exact flush_inv _ h3
+/-- after the LocalSet tick the flag covers what is left in its queue -/
+theorem afterTick_fl (P : Params) (s : St) : FL (afterTick P s) := by
+  unfold afterTick
+  rw [runQn_eq]
+  simp only
+  split
+  · rename_i hlt
+    exact Or.inl ((pop_none_loc P _).1 (idle_of_polls_lt P .loc P.L _ hlt))
+  · exact Or.inr rfl
+
+theorem afterTick_inv (P : Params) (s : St) (hi : Inv s) : Inv (afterTick P s) ∧ (afterTick P s).now = s.now := by
+  unfold afterTick
+  rw [runQn_eq]
+  simp only
+  have h := runQ_inv P .loc P.L (tickStart s)
+  have h0 : Inv (tickStart s) := inv_of_icore s _ rfl hi
+  split
+  · exact ⟨h.1 h0, h.2.1⟩
+  · exact ⟨inv_of_icore _ _ rfl (h.1 h0), h.2.1⟩
+
+theorem afterRt_inv (P : Params) (s : St) (hi : Inv s) :
+    Inv (afterRt P s) ∧ FL (afterRt P s) ∧ (afterRt P s).now = s.now := by
+  unfold afterRt
+  rw [runQn_eq]
+  simp only
+  have ht := afterTick_inv P s hi
+  have hf : FL (rtStart P s) := afterTick_fl P s
+  have h0 : Inv (rtStart P s) := inv_of_icore _ _ rfl ht.1
+  have h := runQ_inv P .rt P.E (rtStart P s)
+  have hl := (runQ_rt_lq P P.E (rtStart P s)).2 rfl hf
+  have hn : (runQ P .rt P.E (rtStart P s)).now = s.now := h.2.1.trans ht.2
+  split
+  · exact ⟨inv_of_icore _ _ rfl (h.1 h0), hl, hn⟩
+  · exact ⟨h.1 h0, hl, hn⟩
+
+/-- one pass keeps the invariant: whatever it polls became runnable in this very instant; afterwards the flag
+covers the LocalSet queue -/
+theorem pass_inv (P : Params) (s : St) (hi : Inv s) : Inv (pass P s) ∧ FL (pass P s) := by
+  unfold pass
+  have h := afterRt_inv P s hi
+  exact flush_inv _ h.1 h.2.1
+
+theorem foldl_push_fl (l : List Entry) :
+    ∀ s : St, s.phase = .flush → FL s →
+      FL (l.foldl (fun s e => pushEntry s { e with origin := .flush }) s) := by
+  induction l with
+  | nil => intro s _ hf; exact hf
+  | cons a l ih =>
+    intro s hp hf
+    simp only [List.foldl_cons]
+    have hk := keeps_pushEntry s { a with origin := .flush }
+    exact ih _ (hk.2.2.2.1.trans hp) (hk.2.2.2.2 (Or.inr hp) hf)
+
+/-- after a pass the flag covers the LocalSet queue (whatever the state it started from) -/
+theorem pass_fl (P : Params) (s : St) : FL (pass P s) := by
+  have h1 : FL (afterRt P s) := by
+    unfold afterRt
+    rw [runQn_eq]
+    simp only
+    have hl := (runQ_rt_lq P P.E (rtStart P s)).2 rfl (afterTick_fl P s)
+    split
+    · exact hl
+    · exact hl
+  unfold pass flush
+  exact foldl_push_fl _ _ rfl h1
 
 theorem afterHandler_inv (h : List Instr) (s : St) (hi : Inv s) : Inv (afterHandler h s) := by
   unfold afterHandler
-  have h0 : Inv { s with phase := .handler } := inv_of_core s _ rfl hi
+  have h0 : Inv { s with phase := .handler } := inv_of_icore s _ rfl hi
   exact (runH_inv h _ h0).1
 
-theorem turn1_inv (P : Params) (h : List Instr) (s : St) (hi : Inv s) : Inv (turn1 P h s) :=
-  pass_inv P _ (afterHandler_inv h s hi)
+theorem turn1_inv (P : Params) (h : List Instr) (s : St) (hi : Inv s) :
+    Inv (turn1 P h s) ∧ FL (turn1 P h s) :=
+  pass_inv P _ (afterHandler_inv h _ (inv_of_icore s _ rfl hi))
 
 theorem drain_inv (P : Params) : ∀ (n : Nat) (s : St), Inv s → Inv (drain P n s) := by
   intro n
@@ -334,57 +506,113 @@ theorem drain_inv (P : Params) : ∀ (n : Nat) (s : St), Inv s → Inv (drain P 
     simp only [drain]
     split
     · exact hi
-    · exact ih _ (pass_inv P s hi)
+    · have h0 : Inv { s with lflag := false } := inv_of_icore s _ rfl hi
+      exact ih _ (pass_inv P _ h0).1
 
 /-- one `exec` keeps the invariant -/
 theorem exec_inv (P : Params) (h : List Instr) (s : St) (hi : Inv s) : Inv (exec P h s) := by
   unfold exec
-  exact drain_inv P _ _ (turn1_inv P h s hi)
+  exact drain_inv P _ _ (turn1_inv P h s hi).1
 
-theorem inv_of_quiet (s : St) (t : Nat) (hq : Quiet s) (ho : OnTime s) : Inv { s with now := t } := by
-  obtain ⟨h1, h2, h3⟩ := hq
-  refine ⟨?_, ?_, ?_, ho⟩ <;> intro e he <;> simp_all
+/-! ### events -/
 
-/-- every event of the run ends with nothing runnable -/
-def AllQuiet (P : Params) : List (Nat × List Instr) → St → Prop
-  | [], _ => True
-  | (t, h) :: r, s => Quiet (deliver P t h s) ∧ AllQuiet P r (deliver P t h s)
+theorem foldl_pushT_inv (l : List Timer) :
+    ∀ s : St, Inv s → (∀ tm ∈ l, tm.deadline = s.now) →
+      Inv (l.foldl (fun s tm => pushEntry s ⟨tm.kind, tm.idx, tm.deadline, .timer⟩) s) := by
+  induction l with
+  | nil => intro s hi _; exact hi
+  | cons a l ih =>
+    intro s hi hl
+    simp only [List.foldl_cons]
+    have hk := keeps_pushEntry s ⟨a.kind, a.idx, a.deadline, .timer⟩
+    refine ih _ (hk.1 (hl a List.mem_cons_self) hi) ?_
+    intro tm he
+    rw [hk.2.1]
+    exact hl tm (List.mem_cons_of_mem _ he)
 
-/-- every event of a single-pass run ends with nothing runnable -/
-def AllQuiet1 (P : Params) : List (Nat × List Instr) → St → Prop
-  | [], _ => True
-  | (t, h) :: r, s => Quiet (deliver1 P t h s) ∧ AllQuiet1 P r (deliver1 P t h s)
+/-- `activate()` at an instant that no pending deadline precedes, from a state with nothing runnable: the woken
+timers' deadline is this very instant -/
+theorem activate_inv (t : Nat) (s : St) (hq : Quiet s) (ho : OnTime s)
+    (hns : ∀ tm ∈ s.timers, t ≤ tm.deadline) : Inv (activate t s) := by
+  unfold activate
+  obtain ⟨h1, h2, h3, h4⟩ := hq
+  refine foldl_pushT_inv _ _ ?_ ?_
+  · refine ⟨?_, ?_, ?_, ?_, ho, ?_⟩
+    · intro e he; simp [h1] at he
+    · intro e he; simp [h2] at he
+    · intro e he; simp [h3] at he
+    · intro e he; simp [h4] at he
+    · intro tm htm
+      simp only [List.mem_filter, decide_eq_true_eq] at htm
+      exact htm.2
+  · intro tm htm
+    simp only [List.mem_filter, decide_eq_true_eq] at htm
+    have := hns tm htm.1
+    show tm.deadline = t
+    omega
 
-theorem deliver1_onTime (P : Params) (t : Nat) (h : List Instr) (s : St) (hq : Quiet s) (ho : OnTime s) :
-    OnTime (deliver1 P t h s) :=
-  (turn1_inv P h _ (inv_of_quiet s t hq ho)).2.2.2
+theorem handle_inv (P : Params) (single : Bool) (ev : Ev) (s : St) (hq : Quiet s) (ho : OnTime s)
+    (hns : ∀ tm ∈ s.timers, ev.time ≤ tm.deadline) : Inv (handle P single ev s) := by
+  unfold handle
+  have h0 := activate_inv ev.time s hq ho hns
+  by_cases hc : ev.consumed = true
+  · simp only [hc, if_true]
+    have h1 := (runH_inv ev.prog _ h0).1
+    cases single
+    · exact exec_inv P _ _ h1
+    · exact (turn1_inv P _ _ h1).1
+  · simp only [hc]
+    cases single
+    · exact exec_inv P _ _ h0
+    · exact (turn1_inv P _ _ h0).1
 
-theorem runEvents1_onTime (P : Params) :
-    ∀ (evs : List (Nat × List Instr)) (s : St), Quiet s → OnTime s → AllQuiet1 P evs s →
-      OnTime (runEvents1 P evs s) := by
-  intro evs
-  induction evs with
-  | nil => intro s _ ho _; exact ho
-  | cons ev r ih =>
-    intro s hq ho ha
-    obtain ⟨t, h⟩ := ev
-    simp only [runEvents1]
-    exact ih _ ha.1 (deliver1_onTime P t h s hq ho) ha.2
+theorem minL_spec : ∀ (l : List Nat) (m : Nat), minL l = some m → m ∈ l ∧ ∀ x ∈ l, m ≤ x := by
+  intro l
+  induction l with
+  | nil => intro m h; simp [minL] at h
+  | cons a l ih =>
+    intro m h
+    simp only [minL] at h
+    cases hm : minL l with
+    | none =>
+      rw [hm] at h
+      simp only [Option.some.injEq] at h
+      subst h
+      have hl : l = [] := by
+        cases l with
+        | nil => rfl
+        | cons b l' =>
+          simp only [minL] at hm
+          cases h2 : minL l' <;> simp [h2] at hm
+      subst hl
+      simp
+    | some m' =>
+      rw [hm] at h
+      simp only [Option.some.injEq] at h
+      have := ih m' hm
+      subst h
+      split
+      · rename_i hle
+        refine ⟨List.mem_cons_self, ?_⟩
+        intro x hx
+        simp only [List.mem_cons] at hx
+        rcases hx with hx | hx
+        · omega
+        · have := this.2 x hx; omega
+      · rename_i hle
+        refine ⟨List.mem_cons_of_mem _ this.1, ?_⟩
+        intro x hx
+        simp only [List.mem_cons] at hx
+        rcases hx with hx | hx
+        · omega
+        · exact this.2 x hx
 
-theorem deliver_onTime (P : Params) (t : Nat) (h : List Instr) (s : St) (hq : Quiet s) (ho : OnTime s) :
-    OnTime (deliver P t h s) :=
-  (exec_inv P h _ (inv_of_quiet s t hq ho)).2.2.2
-
-theorem runEvents_onTime (P : Params) :
-    ∀ (evs : List (Nat × List Instr)) (s : St), Quiet s → OnTime s → AllQuiet P evs s →
-      OnTime (runEvents P evs s) := by
-  intro evs
-  induction evs with
-  | nil => intro s _ ho _; exact ho
-  | cons ev r ih =>
-    intro s hq ho ha
-    obtain ⟨t, h⟩ := ev
-    simp only [runEvents]
-    exact ih _ ha.1 (deliver_onTime P t h s hq ho) ha.2
+theorem minL_none : ∀ (l : List Nat), minL l = none → l = [] := by
+  intro l h
+  cases l with
+  | nil => rfl
+  | cons a l =>
+    simp only [minL] at h
+    cases h2 : minL l <;> simp [h2] at h
 
 end Exec
